@@ -427,4 +427,13 @@ class MonochromaticFluxes(ConvolvedFluxes):
         conv.flux = cube.val[:, :, wavelength_index]
         conv.error = cube.unc[:, :, wavelength_index]
 
+        # Cubes may be stored in units that are not flux densities (e.g.
+        # ergs/cm^2/s or ergs/s), in which case the conversion depends on the
+        # frequency of the slice and on the distance
+        if not conv.flux.unit.is_equivalent(u.mJy):
+            from ..sed.helpers import convert_flux
+            nu = cube.nu[wavelength_index]
+            conv.flux = convert_flux(nu, conv.flux, u.mJy, distance=cube.distance)
+            conv.error = convert_flux(nu, conv.error, u.mJy, distance=cube.distance)
+
         return conv
